@@ -1246,6 +1246,9 @@ class RpcServer:
         output_schema = result.output_schema
         input_schema = result.input_schema
         state = result.state
+        # The documented contract of ``StreamState.bind_call_state``: on the
+        # socket transports the call state is attached once, here.
+        state.bind_call_state(result.call_state)
         cancelled = False
 
         # Write header IPC stream before the main output stream
